@@ -19,8 +19,71 @@ fn key(alg: Option<&str>) -> Jwk {
 }
 fn b64(s: &str) -> String { jwu::encode_b64(s.as_bytes()) }
 
+/// C05, bounded exhaustive: every string of up to 6 characters over an alphabet of base64url characters, separators, padding and
+/// junk, and every combination of a pool of crafted segments, through the three decoders: an error or a value, never a panic;
+/// an accepted compact token has exactly three segments and its parts are the decoded segments
+fn junk_never_panics_small_scope() -> Result<(), String> {
+  let alphabet = ['.', 'e', 'y', 'J', '0', '=', '-', '_', ' ', '{'];
+  let mut cur: Vec<usize> = vec![];
+  let mut n = 0u32;
+  loop {
+    let mut k = cur.len();
+    loop {
+      if k == 0 { cur = vec![0; cur.len() + 1]; break; }
+      k -= 1;
+      if cur[k] + 1 < alphabet.len() { cur[k] += 1; for j in k + 1..cur.len() { cur[j] = 0; } break; }
+    }
+    if cur.len() > 6 { break; }
+    let text: String = cur.iter().map(|&i| alphabet[i]).collect();
+    n += 1;
+    let t = text.clone();
+    let ok = catch_unwind(move || {
+      let d = Decoder::new();
+      let a = d.decode_compact_serialization(t.as_bytes(), None).is_ok();
+      let b = d.decode_compact_serialization(t.as_bytes(), Some(b"e30")).is_ok();
+      (a, b)
+    }).map_err(|_| format!("decode_compact_serialization({text:?}) PANICS"))?;
+    if (ok.0 || ok.1) && text.matches('.').count() != 2 { return Err(format!("compact token {text:?} accepted with {} separators", text.matches('.').count())); }
+  }
+  if n < 1_000_000 { return Err(format!("only {n} strings")); }
+  // crafted segments: every (protected, payload, signature) combination, attached and detached, compact / flattened / general
+  let headers = [b64(r#"{"alg":"EdDSA"}"#), b64(r#"{"alg":"EdDSA","b64":false,"crit":["b64"]}"#), b64(r#"{"alg":"EdDSA","crit":["exp"]}"#), b64(r#"{"alg":"EdDSA","crit":[]}"#),
+    b64(r#"{"alg":"none"}"#), b64(r#"{}"#), b64(r#"[]"#), b64("not json"), b64(r#"{"alg":5}"#), b64(r#"{"alg":"EdDSA","kid":7}"#), "%%%".to_owned(), String::new(), b64(r#"{"alg":"EdDSA","b64":"no"}"#), b64("\u{0}")];
+  let payloads = [b64("{}"), "raw.payload".to_owned(), String::new(), "%%".to_owned(), b64("\u{ff}\u{fe}"), "e30=".to_owned()];
+  let signatures = [b64("sig"), String::new(), "!".to_owned(), "e30=".to_owned()];
+  let mut m = 0u32;
+  for h in &headers { for p in &payloads { for sg in &signatures { for detached in [None, Some(&b"e30"[..]), Some(&b""[..]), Some(&b"raw payload"[..])] {
+    let compact = format!("{h}.{p}.{sg}");
+    let flattened = format!(r#"{{"payload":"{p}","protected":"{h}","signature":"{sg}"}}"#);
+    let flattened_unprot = format!(r#"{{"payload":"{p}","protected":"{h}","header":{{"kid":"k"}},"signature":"{sg}"}}"#);
+    let general = format!(r#"{{"payload":"{p}","signatures":[{{"protected":"{h}","signature":"{sg}"}},{{"header":{{"alg":"EdDSA"}},"signature":"{sg}"}}]}}"#);
+    let general_empty = format!(r#"{{"payload":"{p}","signatures":[]}}"#);
+    m += 1;
+    let what = format!("header {h:?} payload {p:?} signature {sg:?} detached {detached:?}");
+    let det = detached.map(|d| d.to_vec());
+    catch_unwind(move || {
+      let d = Decoder::new();
+      let det = det.as_deref();
+      for item in [d.decode_compact_serialization(compact.as_bytes(), det), d.decode_flattened_serialization(flattened.as_bytes(), det), d.decode_flattened_serialization(flattened_unprot.as_bytes(), det)] {
+        if let Ok(item) = item {
+          // every accessor of an accepted item, and verification with an accepting and a refusing verifier
+          let _ = (item.alg(), item.kid().map(str::len), item.nonce().map(str::len), item.claims().len(), item.signing_input().len(), item.decoded_signature().len(), item.protected_header().is_some(), item.unprotected_header().is_some());
+          let accept = JwsVerifierFn::from(|_i: VerificationInput, _k: &Jwk| Ok(()));
+          let _ = item.verify(&accept, &key(None)).map(|d| d.claims.len());
+        }
+      }
+      for doc in [general.as_bytes(), general_empty.as_bytes()] {
+        if let Ok(iter) = d.decode_general_serialization(doc, det) { for item in iter { if let Ok(item) = item { let _ = (item.alg(), item.claims().len(), item.signing_input().len()); } } }
+      }
+    }).map_err(|_| format!("a decoder or an accessor PANICS for {what}"))?;
+  } } } }
+  if m < 1000 { return Err(format!("only {m} combinations")); }
+  Ok(())
+}
+
 fn main() {
   std::panic::set_hook(Box::new(|_| {}));
+  w("jd_junk_never_panics_small_scope", junk_never_panics_small_scope);
   let accept_all = || JwsVerifierFn::from(|_input: VerificationInput, _key: &Jwk| Ok(()));
 
   w("jd_alg_only_in_unprotected_header", || {
